@@ -4,7 +4,7 @@ from ..ir import CASTS
 from ..mem import addr_str
 from ..summary import Analyzer, akey, term_str
 from ..initflow import InitFlow, lf_add, lf_const, lf_scale, lf_is_const, lf_str
-from .common import construct, fsite, csite, direct_calls
+from .common import construct, fsite, csite, direct_calls, public_functions
 from .ctr import ctr_backends
 
 TITLE = ("Decides the buffering protocol that makes CTR output independent of how the data is cut into calls (that the "
@@ -552,6 +552,46 @@ def run_config(ctx, rep, cfg):
                         hf = prog.resolve(g.unit, i["callee"][1])
                         if hf:
                             helpers[hf.key] = b.block
+    # ---- R2 (lanes): the documented default counter is all-zero, so a fresh vector context must hold the
+    # staggered lanes 0,1,..,L-1 - either its init staggers them or the public init loads the zero counter
+    pubs = {n: (f, c, d) for (n, f, c, d) in public_functions(ctx, prog)}
+    for b in backends:
+        if b.lanes == 1:
+            continue
+        iname, ifn = b.role("_ctr_init")
+        sname, sfn = b.role("_set_counter")
+        if ifn is None or sname is None:
+            continue
+        C = Ctx5(prog, an, b, ifn, 0)
+        tuples = []
+        for i in direct_calls(ifn):
+            if prog.resolve(ifn.unit, i["callee"][1]) is None or len(i["ops"]) < 3:
+                continue
+            fl0 = C.field(i["ops"][0])
+            if fl0 and fl0[0] == "counter":
+                cs = [C.lf(o) for o in i["ops"][1:]]
+                tuples.append(tuple(c[0] if c is not None and lf_is_const(c) else None for c in cs))
+        want = [(k, k) for k in range(1, b.lanes)]
+        init_ok = sorted(tuples, key=str) == sorted(want, key=str)
+        # public init dispatching to the set_counter slot with a NULL counter
+        pf = pubs[iname][0]
+        ps = an.summaries[pf.key]
+        slot_sc = None
+        for (iid, st, idx, targets) in an.summaries[pubs[sname][0].key].indirect:
+            slot_sc = (st, idx)
+        pub_ok = False
+        for (iid, st, idx, targets) in ps.indirect:
+            if (st, idx) == slot_sc:
+                call = pf.insts[iid]
+                if len(call["ops"]) >= 2 and call["ops"][1][0] == "n":
+                    pub_ok = True
+        cons = construct(ifn) + ":lanes"
+        if init_ok or pub_ok:
+            rep.ok("C05.R2", cons, fsite(ifn), "fresh %d-lane context holds the staggered zero counter (%s)" % (b.lanes, "init staggers the lanes" if init_ok else "%s loads the NULL counter through the set_counter slot" % iname), cfg=cn)
+        else:
+            rep.violation("C05.R2", cons, fsite(ifn),
+                          "after init all %d counter lanes are equal (calloc zero) and nothing staggers them: without set_counter the first batch is E(0) repeated %d times instead of E(0)..E(%d), and the generic back end disagrees" %
+                          (b.lanes, b.lanes, b.lanes - 1), cfg=cn)
     for hk, blk in sorted(helpers.items()):
         hf = prog.funcs[hk]
         ok, why = counter_helper_ok(hf, blk)
